@@ -810,7 +810,7 @@ impl<'tcx> Cx<'tcx> {
             .in_definition_order()
             .map(|a| {
                 let mut v = vec![
-                    ("name", esc(&a.name().to_string())),
+                    ("name", esc(&a.opt_name().map(|n| n.to_string()).unwrap_or_else(|| "<anon>".into()))),
                     ("kind", esc(&format!("{:?}", tcx.def_kind(a.def_id)))),
                     ("key", esc(&self.key(a.def_id))),
                 ];
@@ -885,7 +885,7 @@ impl Callbacks for Cb {
                         .in_definition_order()
                         .map(|a| {
                             obj(vec![
-                                ("name", esc(&a.name().to_string())),
+                                ("name", esc(&a.opt_name().map(|n| n.to_string()).unwrap_or_else(|| "<anon>".into()))),
                                 ("kind", esc(&format!("{:?}", tcx.def_kind(a.def_id)))),
                                 ("has_default", format!("{}", a.defaultness(tcx).has_value())),
                             ])
